@@ -92,6 +92,23 @@ func genWX(seed uint64, tier, prop string) *wxScenario {
 		}
 	}
 
+	// re-subscription: an actor that removed a watch registers a fresh watcher
+	// of the same type later (same or another name), so that a type can lose
+	// all its names and get some again, also across a stream restart
+	for a := range s.Actors {
+		n := len(s.Actors[a])
+		if n == 0 || s.Actors[a][n-1].Kind != "unwatch" || len(s.Watchers) >= 7 || !r.Chance(1, 2) {
+			continue
+		}
+		old := s.Watchers[s.Actors[a][n-1].W]
+		nw := watcherSpec{Typ: old.Typ, N: old.N}
+		if r.Chance(1, 3) {
+			nw.N = r.Intn(nNames)
+		}
+		s.Watchers = append(s.Watchers, nw)
+		s.Actors[a] = append(s.Actors[a], actorOp{Kind: "sleep", Ns: genDelay(r, s.ExpiryNs)}, actorOp{Kind: "watch", W: len(s.Watchers) - 1})
+	}
+
 	// servers
 	ver := 0
 	for si := 0; si < nsrv; si++ {
